@@ -731,6 +731,14 @@ class Magnetization(MagicProperties):
         if val is not None:
             self.arrow.size = val
 
+    def as_dict(self, flatten=False, separator="."):
+        """returns recursively a nested dictionary with all properties objects of the class
+        (without the deprecated `size` alias, which would re-apply the old `arrow.size` after
+        every new one in the dictionary round trip of `update` and `reset`)"""
+        dict_ = super().as_dict(flatten=flatten, separator=separator)
+        dict_.pop("size", None)
+        return dict_
+
     @property
     def color(self):
         """Color properties showing the magnetization direction (for the plotly backend).
